@@ -463,9 +463,17 @@ func wmExec(ops []string) []string {
 			}
 			time.Sleep(2 * time.Millisecond)
 			w2.Done(5)
-			wg.Wait()
-			w2.Stop()
-			res[i] = fmt.Sprintf("early=%d", early.Load())
+			// every one of them has to come back: a waiter that is still parked after the mark passed its index is reported,
+			// not waited for
+			all := make(chan struct{})
+			go func() { wg.Wait(); close(all) }()
+			select {
+			case <-all:
+				w2.Stop()
+				res[i] = fmt.Sprintf("early=%d", early.Load())
+			case <-time.After(3 * time.Second):
+				res[i] = fmt.Sprintf("early=%d still-waiting-after-DoneUntil=%d", early.Load(), w2.DoneUntil())
+			}
 		case "waitctx":
 			// WaitForMark with an already cancelled context on an index that is not reached: context error
 			ts, _ := strconv.ParseUint(t[1], 10, 64)
